@@ -1,6 +1,6 @@
 CONSTANTS
   GC = TRUE
-  NonTailIf = FALSE
+  Broken = "none"
   Family = "tail-inf-1"
   MaxKont = 4
 SPECIFICATION Spec
